@@ -541,7 +541,17 @@ fn case_bits(d: &mut crate::driver::Driver, r: &mut Report, seed: u64, i: u64) {
     let mut real_rng = LinRng::new(vec![], SplitMix::derive(seed ^ 0xB175, i));
     let mut shadow = real_rng.clone();
     let real = match catch_unwind(AssertUnwindSafe(|| {
-        if with_p { Bitstring::random_with_probability(n, f64::from_bits(p), &mut real_rng) } else { Bitstring::random(n, &mut real_rng) }
+        if with_p && i % 2 == 0 {
+            // one BoolGenerator value used, reconfigured through its public field, and used again: the probability
+            // that acts must be the one configured now, not the one of the first use
+            let p0 = [0.0, 1.0, 0.5, 0.3][(i / 2 % 4) as usize];
+            let mut bg = ec_linear::genome::bitstring::BoolGenerator::new(p0);
+            let mut scratch = SplitMix::derive(seed ^ 0x5C4A, i);
+            for _ in 0..3 { let _: bool = bg.sample(&mut scratch); }
+            bg.true_probability = f64::from_bits(p);
+            let b: Bitstring = bg.into_collection_generator(n).sample(&mut real_rng);
+            b
+        } else if with_p { Bitstring::random_with_probability(n, f64::from_bits(p), &mut real_rng) } else { Bitstring::random(n, &mut real_rng) }
     })) { Ok(b) => format!("ok {}", gtok(&b.bits.iter().map(|x| *x as u64).collect::<Vec<_>>())), Err(_) => "panic".into() };
     let req = if with_p { format!("mut bitsp {n} {p}") } else { format!("mut bits {n}") };
     let model = d.ask_with(&req, |q| prims::answer(q, &mut shadow, &mut prims::no_user));
